@@ -47,6 +47,13 @@ var modelTable = map[string]string{
 	"internal/bytealg.IndexByte":       "BytesIndexByte",
 	"internal/bytealg.Equal":           "BytesEqual",
 	"unicode/utf8.ValidString":         "Utf8ValidString",
+	"flag.String":                      "FlagString",
+	"flag.Bool":                        "FlagBool",
+	"flag.Int":                         "FlagInt",
+	"flag.Var":                         "FlagVar",
+	"flag.Parse":                       "FlagParse",
+	"flag.Args":                        "FlagArgs",
+	"path/filepath.WalkDir":            "FilepathWalkDir",
 }
 
 func main() {
@@ -152,7 +159,7 @@ func main() {
 		"verifharness", "github.com/ChrisTrenkamp/xsel", "github.com/goccmack/goutil", "github.com/pkg/errors",
 		"io", "strconv", "unicode", "sort", "math", "strings", "bytes", "slices", "cmp", "iter",
 		"unicode/utf8", "unicode/utf16", "math/bits", "container/list", "internal/bytealg", "internal/itoa",
-		"encoding/json", "encoding/xml", "encoding", "encoding/base64", "bufio", "golang.org/x/net/html", "golang.org/x/net/html/atom",
+		"encoding/json", "encoding/xml", "encoding", "encoding/base64", "bufio", "golang.org/x/net/html", "golang.org/x/net/html/atom", "io/fs", "internal/oserror",
 	}
 	h.CountPfx = strings.Split(*countPfx, ",")
 
